@@ -8,7 +8,7 @@ import struct
 from ..cfg import cfg_of
 from ..model import AnalysisError, call_name, calls_in, dotted, norm, walk_no_nested
 from .. import rules
-from . import _items
+from . import _codec, _items
 
 NUMERIC = {"U1": "U1", "U2": "U2", "U4": "U4", "U8": "U8", "I1": "I1", "I2": "I2", "I4": "I4", "I8": "I8", "F4": "F4", "F8": "F8"}
 OTHERS = {"L": "List", "B": "Binary", "BOOLEAN": "Boolean", "A": "String", "J": "JIS8"}
@@ -38,42 +38,128 @@ META = {
 }
 
 
-def check_numeric_shapes(ctx):
+# Reference models of the payload codecs (SEMI E5 section 9: item = header + body; numeric bodies are the elements in order,
+# most significant byte first; boolean/binary one byte per element; text one byte per character; lists are the
+# concatenation of their members).  Written for the checker, compared with the implementation as summaries (sa.summary).
+REF = {
+    "BaseNumber.encode": """
+def encode(self):
+    result = self.encode_item_header(len(self.value) * self._bytes)
+    for value in self.value:
+        result += struct.pack(f">{self._struct_code}", value)
+    return result
+""",
+    "BaseNumber.decode": """
+def decode(self, data, start=0):
+    (text_pos, _, length) = self.decode_item_header(data, start)
+    result = []
+    for _ in range(length // self._bytes):
+        result_text = data[text_pos : text_pos + self._bytes]
+        if len(result_text) != self._bytes:
+            raise ValueError()
+        result.append(struct.unpack(f">{self._struct_code}", result_text)[0])
+        text_pos += self._bytes
+    self.set(result)
+    return text_pos
+""",
+    "Boolean.encode": """
+def encode(self):
+    result = self.encode_item_header(len(self.value))
+    for value in self.value:
+        result += b"\\x01" if value else b"\\x00"
+    return result
+""",
+    "Boolean.decode": """
+def decode(self, data, start=0):
+    (text_pos, _, length) = self.decode_item_header(data, start)
+    result = []
+    for i in range(length):
+        result.append(data[text_pos + i] != 0)
+    self.set(result)
+    return text_pos + length
+""",
+    "Binary.encode": """
+def encode(self):
+    if self.value is None:
+        return self.encode_item_header(0)
+    return self.encode_item_header(len(self.value)) + bytes(self.value)
+""",
+    "Binary.decode": """
+def decode(self, data, start=0):
+    (text_pos, _, length) = self.decode_item_header(data, start)
+    self.set(data[text_pos : text_pos + length])
+    return text_pos + length
+""",
+    "BaseText.encode": """
+def encode(self):
+    return self.encode_item_header(len(self.value)) + self.value.encode(self.coding)
+""",
+    "BaseText.decode": """
+def decode(self, data, start=0):
+    (text_pos, _, length) = self.decode_item_header(data, start)
+    if length > 0:
+        self.set(data[text_pos : text_pos + length].decode(self.coding))
+    else:
+        self.set("")
+    return text_pos + length
+""",
+    "Array.encode": """
+def encode(self):
+    result = self.encode_item_header(len(self.data))
+    for item in self.data:
+        result += item.encode()
+    return result
+""",
+    "Array.decode": """
+def decode(self, data, start=0):
+    (text_pos, _, length) = self.decode_item_header(data, start)
+    self.data = []
+    for _ in range(length):
+        new_object = generate(self.item_decriptor)
+        text_pos = new_object.decode(data, text_pos)
+        self.data.append(new_object)
+    return text_pos
+""",
+    "List.encode": """
+def encode(self):
+    result = self.encode_item_header(len(self.data))
+    for field_name in self.data:
+        result += self.data[field_name].encode()
+    return result
+""",
+    "List.decode": """
+def decode(self, data, start=0):
+    (text_pos, _, length) = self.decode_item_header(data, start)
+    for i in range(length):
+        text_pos = self.data[list(self.data.keys())[i]].decode(data, text_pos)
+    return text_pos
+""",
+}
+
+CODEC_RULES = [
+    # (rule, class, method, {component: sentence})
+    ("C01.P1", "BaseNumber", "encode", {"returns": "numeric encode = header(count * width) + every element packed big-endian with the class's struct code, in value order"}),
+    ("C01.P1", "BaseNumber", "decode", {"returns": "numeric decode returns the cursor after count = length // width elements", "stores": "element i is unpacked (big-endian, same struct code) from the width bytes at cursor + i*width and the list is stored", "raises": "a truncated element is refused"}),
+    ("C01.P2", "Boolean", "encode", {"returns": "boolean encode = header(count) + one byte 0x01/0x00 per element, in order"}),
+    ("C01.P2", "Boolean", "decode", {"returns": "boolean decode consumes header + length bytes", "stores": "element i is True iff byte i of the body is non-zero"}),
+    ("C01.P2", "Binary", "encode", {"returns": "binary encode = header(byte count) + the bytes"}),
+    ("C01.P2", "Binary", "decode", {"returns": "binary decode consumes header + length bytes", "stores": "the stored value is exactly the length bytes at the cursor"}),
+    ("C01.T2", "BaseText", "encode", {"returns": "text encode = header(character count) + value.encode(class codec)"}),
+    ("C01.T2", "BaseText", "decode", {"returns": "text decode consumes header + length bytes", "stores": "the stored text is the length bytes at the cursor decoded with the class codec ('' for length 0)"}),
+    ("C01.P3", "Array", "encode", {"returns": "Array encode = header(element count) + every child's encoding, in order"}),
+    ("C01.P3", "Array", "decode", {"returns": "Array decode threads the cursor through one child decode per element and returns it", "stores": "the element list is reset and every decoded child appended in order"}),
+    ("C01.P3", "List", "encode", {"returns": "List encode = header(field count) + every field's encoding, in declaration order"}),
+    ("C01.P3", "List", "decode", {"returns": "List decode threads the cursor through the fields in declaration order, one per transmitted member"}),
+]
+
+
+def check_codecs(ctx):
     repo = ctx.repo
-    enc = repo.method("BaseNumber", "encode", inherited=False)
-    dec = repo.method("BaseNumber", "decode", inherited=False)
-    ctx.touch(enc)
-    ctx.touch(dec)
-    # encode
-    hdr = [c for c in calls_in(enc.node) if call_name(c) == "self.encode_item_header"]
-    ok = len(hdr) == 1 and norm(hdr[0].args[0]) in ("len(self.value) * self._bytes", "self._bytes * len(self.value)")
-    ctx.ob("C01.P1", enc.qualname, ok, "the header length is element count * element width" if ok else f"header length is `{norm(hdr[0].args[0]) if hdr else None}`, not len(value) * _bytes", key="header-length", where=enc.where)
-    packs = [c for c in calls_in(enc.node) if call_name(c) == "struct.pack"]
-    ok = len(packs) == 1 and norm(packs[0].args[0]) == "f'>{self._struct_code}'"
-    ctx.ob("C01.P1", enc.qualname, ok, "each element is packed big-endian with the class's struct code" if ok else f"elements are packed with `{norm(packs[0].args[0]) if packs else None}` (E5: most significant byte first, the class's own code)", key="pack-format", where=enc.where)
-    fors = [s for s in rules.func_stmts(enc.node) if isinstance(s, ast.For)]
-    ok = len(fors) == 1 and norm(fors[0].iter) == "self.value" and packs and norm(packs[0].args[1]) == fors[0].target.id
-    ctx.ob("C01.P1", enc.qualname, ok, "elements are emitted in value order, each exactly once" if ok else "elements are not packed one by one in value order", key="order", where=enc.where)
-    # decode
-    cfg = cfg_of(dec.node)
-    unp = [c for c in calls_in(dec.node) if call_name(c) == "struct.unpack"]
-    ok = len(unp) == 1 and norm(unp[0].args[0]) == "f'>{self._struct_code}'"
-    ctx.ob("C01.P1", dec.qualname, ok, "each element is unpacked big-endian with the same struct code" if ok else f"elements are unpacked with `{norm(unp[0].args[0]) if unp else None}`", key="unpack-format", where=dec.where)
-    fors = [s for s in rules.func_stmts(dec.node) if isinstance(s, ast.For)]
-    ok = len(fors) == 1 and norm(fors[0].iter) == "range(length // self._bytes)"
-    ctx.ob("C01.P1", dec.qualname, ok, "the element count is length // element width" if ok else f"decode iterates `{norm(fors[0].iter) if fors else None}`", key="count", where=dec.where)
-    slices = [n for n in walk_no_nested(dec.node) if isinstance(n, ast.Subscript) and isinstance(n.slice, ast.Slice) and norm(n.value) == dec.node.args.args[1].arg]
-    ok = len(slices) == 1 and norm(slices[0].slice.lower) == "text_pos" and norm(slices[0].slice.upper) == "text_pos + self._bytes"
-    ctx.ob("C01.P1", dec.qualname, ok, "each element is the next _bytes bytes at the cursor" if ok else "element slices are not data[cursor : cursor + _bytes]", key="slice", where=dec.where)
-    adv = [s for s in rules.func_stmts(dec.node) if isinstance(s, ast.AugAssign) and norm(s.target) == "text_pos"]
-    ok = len(adv) == 1 and isinstance(adv[0].op, ast.Add) and norm(adv[0].value) == "self._bytes"
-    ctx.ob("C01.P1", dec.qualname, ok, "the cursor advances by one element width per element" if ok else "the cursor does not advance by _bytes per element", key="advance", where=dec.where)
-    rets = [s for s in rules.func_stmts(dec.node) if isinstance(s, ast.Return)]
-    ok = len(rets) == 1 and norm(rets[0].value) == "text_pos"
-    ctx.ob("C01.P1", dec.qualname, ok, "decode returns the cursor after the last element" if ok else f"decode returns `{norm(rets[0].value) if rets else None}`", key="returns-cursor", where=dec.where)
-    short = [n for n in cfg.real_nodes() if isinstance(n.ast, ast.Raise)]
-    ok = any(any("len(result_text) != self._bytes" in norm(t) and v for t, v in cfg.dominating_conditions(n)) for n in short)
-    ctx.ob("C01.P1", dec.qualname, ok, "a truncated element is refused" if ok else "a truncated element is not refused", key="truncated", where=dec.where)
+    for rule, cname, meth, what in CODEC_RULES:
+        f = repo.method(cname, meth, inherited=False)
+        params = _codec.decode_params() if meth == "decode" else None
+        _codec.agree(ctx, rule, f, REF[f"{cname}.{meth}"], what, params=params, key_prefix=f"{meth}-")
+    ctx.floor("payload codecs compared with their reference model", len(CODEC_RULES), 12)
 
 
 def _stores_value(ctx, f, field_names=("self.value", "self.data")):
@@ -148,23 +234,6 @@ def check_text(ctx):
         got = repo.const(cname, "coding")
         ok = got.replace("_", "-").lower() in (coding.replace("_", "-"), coding) or got == coding
         ctx.ob("C01.T2", cname, ok, f"{cname} uses the single-byte codec {got}" if ok else f"{cname}.coding is {got!r}, expected {coding!r}", key="coding", where=repo.cls(cname).where)
-    enc = repo.method("BaseText", "encode", inherited=False)
-    dec = repo.method("BaseText", "decode", inherited=False)
-    ctx.touch(enc)
-    ctx.touch(dec)
-    hdr = [c for c in calls_in(enc.node) if call_name(c) == "self.encode_item_header"]
-    ok = len(hdr) == 1 and norm(hdr[0].args[0]) in ("len(self.value)", "len(self.value.encode(self.coding))")
-    ctx.ob("C01.T2", enc.qualname, ok, "the header length is the character count (= byte count for a single-byte codec)" if ok else f"text header length is `{norm(hdr[0].args[0]) if hdr else None}`", key="header-length", where=enc.where)
-    ok = any(isinstance(s, ast.AugAssign) and norm(s.value) == "self.value.encode(self.coding)" for s in rules.func_stmts(enc.node))
-    ctx.ob("C01.T2", enc.qualname, ok, "the payload is the value encoded with the class's codec" if ok else "the payload is not value.encode(coding)", key="payload", where=enc.where)
-    sl = [n for n in walk_no_nested(dec.node) if isinstance(n, ast.Subscript) and isinstance(n.slice, ast.Slice)]
-    ok = len(sl) == 1 and norm(sl[0].slice.lower) == "text_pos" and norm(sl[0].slice.upper) == "text_pos + length"
-    ctx.ob("C01.T2", dec.qualname, ok, "decode takes exactly `length` bytes at the cursor" if ok else "decode does not take data[cursor : cursor + length]", key="slice", where=dec.where)
-    rets = [s for s in rules.func_stmts(dec.node) if isinstance(s, ast.Return)]
-    ok = len(rets) == 1 and norm(rets[0].value) == "text_pos + length"
-    ctx.ob("C01.T2", dec.qualname, ok, "decode consumes header + length bytes" if ok else f"decode returns `{norm(rets[0].value) if rets else None}`", key="cursor", where=dec.where)
-    ok = any(isinstance(c.func, ast.Attribute) and c.func.attr == "decode" and c.args and norm(c.args[0]) == "self.coding" for c in calls_in(dec.node))
-    ctx.ob("C01.T2", dec.qualname, ok, "bytes are decoded with the class's codec" if ok else "decode does not use self.coding", key="codec", where=dec.where)
     check_jis_codec(ctx)
 
 
@@ -221,100 +290,6 @@ def check_jis_codec(ctx):
            f"the encoding table is modified after inversion ({other_writes[:2]}): a character is encoded to a byte that decodes to a different character, so accepted JIS-8 text does not round-trip", key="inverse", where=where)
 
 
-def check_bool_binary(ctx):
-    repo = ctx.repo
-    enc = repo.method("Boolean", "encode", inherited=False)
-    dec = repo.method("Boolean", "decode", inherited=False)
-    ctx.touch(enc)
-    ctx.touch(dec)
-    cfg = cfg_of(enc.node)
-    hdr = [c for c in calls_in(enc.node) if call_name(c) == "self.encode_item_header"]
-    ok = len(hdr) == 1 and norm(hdr[0].args[0]) == "len(self.value)"
-    ctx.ob("C01.P2", enc.qualname, ok, "boolean header length = element count" if ok else "boolean header length is not the element count", key="header-length", where=enc.where)
-    fors = [n for n in cfg.nodes if n.kind == "iter" and norm(n.ast.iter) == "self.value"]
-    adds = [n for n in cfg.real_nodes() if isinstance(n.ast, ast.AugAssign) and norm(n.ast.target) == "result"]
-    ok = len(fors) == 1
-    if ok:
-        cts = cfg.loop_iteration_counts(fors[0], lambda n: n in adds, no_exc=True)
-        vals = {}
-        for a in adds:
-            conds = [(norm(t), v) for t, v in cfg.dominating_conditions(a)]
-            lv = fors[0].ast.target.id
-            if (lv, True) in conds:
-                vals[True] = a.ast.value.value if isinstance(a.ast.value, ast.Constant) else None
-            if (lv, False) in conds:
-                vals[False] = a.ast.value.value if isinstance(a.ast.value, ast.Constant) else None
-        ok = all(v == (1, 1) for v in cts.values()) and vals == {True: b"\x01", False: b"\x00"}
-    ctx.ob("C01.P2", enc.qualname, ok, "each element becomes exactly one byte: 0x01 for true, 0x00 for false" if ok else "boolean elements are not encoded as one byte 0x01/0x00 each", key="bytes", where=enc.where)
-    dcfg = cfg_of(dec.node)
-    fors = [n for n in dcfg.nodes if n.kind == "iter" and norm(n.ast.iter) == "range(length)"]
-    ok = len(fors) == 1
-    if ok:
-        apps = [n for n in dcfg.real_nodes() if any(c == "result.append" for c in n.call_names())]
-        cts = dcfg.loop_iteration_counts(fors[0], lambda n: n in apps, no_exc=True)
-        vals = {}
-        for a in apps:
-            c = next(c for c in a.calls if call_name(c) == "result.append")
-            for t, v in dcfg.dominating_conditions(a):
-                if norm(t) == "bytearray(data)[text_pos] == 0":
-                    vals[v] = norm(c.args[0])
-        adv = [n for n in dcfg.real_nodes() if isinstance(n.ast, ast.AugAssign) and norm(n.ast.target) == "text_pos" and norm(n.ast.value) == "1"]
-        acts = dcfg.loop_iteration_counts(fors[0], lambda n: n in adv, no_exc=True)
-        ok = all(v == (1, 1) for v in cts.values()) and vals == {True: "False", False: "True"} and all(v == (1, 1) for v in acts.values())
-    ctx.ob("C01.P2", dec.qualname, ok, "one element per byte: zero is False, anything else True; the cursor advances by one per element" if ok else "boolean decode does not map each byte (0 -> False, non-zero -> True) advancing the cursor by one", key="decode", where=dec.where)
-    rets = [s for s in rules.func_stmts(dec.node) if isinstance(s, ast.Return)]
-    ok = len(rets) == 1 and norm(rets[0].value) == "text_pos"
-    ctx.ob("C01.P2", dec.qualname, ok, "boolean decode returns the cursor" if ok else "boolean decode does not return the cursor", key="cursor", where=dec.where)
-    enc = repo.method("Binary", "encode", inherited=False)
-    dec = repo.method("Binary", "decode", inherited=False)
-    ctx.touch(enc)
-    ctx.touch(dec)
-    hdr = [c for c in calls_in(enc.node) if call_name(c) == "self.encode_item_header"]
-    ok = len(hdr) == 1 and "len(self.value)" in norm(hdr[0].args[0]) and any(isinstance(s, ast.AugAssign) and norm(s.value) == "bytes(self.value)" for s in rules.func_stmts(enc.node))
-    ctx.ob("C01.P2", enc.qualname, ok, "binary: header length = byte count, payload = the bytes" if ok else "binary encode is not header(len(value)) + bytes(value)", key="binary-encode", where=enc.where)
-    sl = [n for n in walk_no_nested(dec.node) if isinstance(n, ast.Subscript) and isinstance(n.slice, ast.Slice)]
-    rets = [s for s in rules.func_stmts(dec.node) if isinstance(s, ast.Return)]
-    ok = len(sl) == 1 and norm(sl[0].slice.lower) == "text_pos" and norm(sl[0].slice.upper) == "text_pos + length" and len(rets) == 1 and norm(rets[0].value) == "text_pos + length"
-    ctx.ob("C01.P2", dec.qualname, ok, "binary decode takes exactly `length` bytes and consumes them" if ok else "binary decode does not take/consume data[cursor : cursor + length]", key="binary-decode", where=dec.where)
-
-
-def check_containers(ctx):
-    repo = ctx.repo
-    for cname, coll, via in (("Array", "self.data", None), ("List", "self.data", "keys")):
-        enc = repo.method(cname, "encode", inherited=False)
-        dec = repo.method(cname, "decode", inherited=False)
-        ctx.touch(enc)
-        ctx.touch(dec)
-        hdr = [c for c in calls_in(enc.node) if call_name(c) == "self.encode_item_header"]
-        ok = len(hdr) == 1 and norm(hdr[0].args[0]) == f"len({coll})"
-        ctx.ob("C01.P3", enc.qualname, ok, f"{cname}: the header carries the element count" if ok else f"{cname}: header length is `{norm(hdr[0].args[0]) if hdr else None}`, not the element count", key="count", where=enc.where)
-        fors = [s for s in rules.func_stmts(enc.node) if isinstance(s, ast.For)]
-        ok = len(fors) == 1 and norm(fors[0].iter) == coll
-        if ok:
-            lv = fors[0].target.id
-            adds = [s for s in fors[0].body if isinstance(s, ast.AugAssign) and isinstance(s.op, ast.Add) and norm(s.target) == "result"]
-            want = f"{lv}.encode()" if via is None else f"{coll}[{lv}].encode()"
-            ok = len(adds) == 1 and len(fors[0].body) == 1 and norm(adds[0].value) == want
-        ctx.ob("C01.P3", enc.qualname, ok, f"{cname}: children are encoded once each, in order" if ok else f"{cname}: children are not appended as child.encode() in iteration order", key="children", where=enc.where)
-        dcfg = cfg_of(dec.node)
-        fors = [n for n in dcfg.nodes if n.kind == "iter" and norm(n.ast.iter) == "range(length)"]
-        ok = len(fors) == 1
-        if ok:
-            steps = [n for n in dcfg.real_nodes() if isinstance(n.ast, ast.Assign) and norm(n.ast.targets[0]) == "text_pos" and isinstance(n.ast.value, ast.Call) and isinstance(n.ast.value.func, ast.Attribute) and n.ast.value.func.attr == "decode" and [norm(a) for a in n.ast.value.args] == ["data", "text_pos"]]
-            cts = dcfg.loop_iteration_counts(fors[0], lambda n: n in steps, no_exc=True)
-            ok = len(steps) == 1 and all(v == (1, 1) for v in cts.values())
-        ctx.ob("C01.P3", dec.qualname, ok, f"{cname}: each child decodes at the cursor and the cursor continues where the child stopped" if ok else f"{cname}: decode does not thread `text_pos = child.decode(data, text_pos)` once per element", key="thread-cursor", where=dec.where)
-        rets = [s for s in rules.func_stmts(dec.node) if isinstance(s, ast.Return)]
-        ok = len(rets) == 1 and norm(rets[0].value) == "text_pos"
-        ctx.ob("C01.P3", dec.qualname, ok, f"{cname}: decode returns the cursor after the last child" if ok else f"{cname}: decode returns `{norm(rets[0].value) if rets else None}`", key="cursor", where=dec.where)
-    dec = repo.method("Array", "decode", inherited=False)
-    ok = any(isinstance(s, ast.Assign) and norm(s.targets[0]) == "self.data" and norm(s.value) == "[]" for s in rules.func_stmts(dec.node)) and any(call_name(c) == "self.data.append" for c in calls_in(dec.node))
-    ctx.ob("C01.P3", dec.qualname, ok, "Array.decode replaces its elements by the decoded ones, in order" if ok else "Array.decode does not reset and append the decoded elements", key="array-replace", where=dec.where)
-    ldec = repo.method("List", "decode", inherited=False)
-    ok = "list(self.data.keys())[i]" in " ".join(norm(s) for s in rules.func_stmts(ldec.node))
-    ctx.ob("C01.P3", ldec.qualname, ok, "List.decode fills the fields in declaration order" if ok else "List.decode does not address fields by position i in declaration order", key="list-order", where=ldec.where)
-
-
 def check_codes(ctx):
     repo = ctx.repo
     r = _items.ref()
@@ -339,10 +314,8 @@ def run(ctx):
     _items.check_roundtrip(ctx, "C01.B2", "Base", "encode_item_header", "format_code", "Base", "decode_item_header", "variables", intervals)
     n = _items.check_numeric_table(ctx, "C01.T1", NUMERIC, VAR_ATTRS)
     ctx.floor("numeric classes", n, 10)
-    check_numeric_shapes(ctx)
+    check_codecs(ctx)
     check_text(ctx)
-    check_bool_binary(ctx)
-    check_containers(ctx)
     check_decode_stores(ctx)
     check_codes(ctx)
     from .c02 import check_dynamic
